@@ -59,4 +59,40 @@ PROPS = {
         ],
         "trusted_base": ["Model.Scope is tied to scope.go / scope_registry.go by the differential on random programs only (no structural facts beyond the key writer)"],
     },
+    "C20": {
+        "suites": ["c20ctor", "c20cache"],
+        "assumptions": COMMON_ASSUME + [
+            "float64 + and * are IEEE-754 binary64 round-to-nearest-even and Go does not fuse x*y+z (amd64, GOAMD64=v1); in the theorems they are arbitrary functions on bit patterns, in the differential they are Lean's native Float on the same machine; NaN payloads are not compared",
+            "float64 -> int64 conversion is exact truncation for results that fit; ExponentialDurationBuckets is compared only on arguments whose element-producing products stay within +-2^62 (outside the int64 range Go leaves the conversion implementation-defined)",
+            "sort.Sort returns a permutation sorted by Less (merge sort in the executable model; bounds are compared through the numeric key, so -0 = +0)",
+            "RWMutex gives mutual exclusion: the read-locked probe and the write-locked build-and-store of bucketCache.Get are atomic steps of the concurrent model",
+            "a bucket slice is not mutated by its owner after it was handed to Histogram() (the cache keeps the caller's slice as the stored spec)",
+        ],
+        "trusted_base": [
+            "the identity hash is internal (internal/identity): the model's formula is tied by extracted constants and return expressions and cross-checked against the harness's own rendering, not against the function itself; cache_transparent holds for every identity function",
+            "concurrent histories run on free schedules (8 goroutines released together); all interleavings are covered by the theorem, not by enumeration",
+        ],
+    },
+    "C18": {
+        "suites": ["c18"],
+        "assumptions": [
+            "the harness observes the StatsD reporter only through a recording fake of the client interface statsd.Statter (github.com/cactus/go-statsd-client/v5): what the real client then puts on the wire is outside this property",
+            "fmt.Sprintf(\"%.Nf\") and time.Duration.String are re-implemented exactly in Lean on integers (correctly rounded half-even decimal of the float64 bit pattern; Go's fmtFrac/fmtInt algorithm) and compared byte for byte with the Go runtime's own output on every run; the theorems are about the re-implementation",
+            "Go's int64(v) for a float64 v is defined only for finite v whose truncation fits an int64; the gauge value is compared exactly only on that domain (NaN, +-Inf and |v| >= 2^63 are generated but judged only for call count, kind, name and rate)",
+            "value bucket bounds are finite (C03's precondition); NaN/+-Inf bounds are generated as an adversarial stream and compared with the model (NaN, +Inf, -Inf texts) but the spec demands only the bound shape for them",
+            "the sample rate is a float32 carried as its bit pattern; 'unset' is the float32 comparison SampleRate == 0, so -0 also means unset",
+            "precisions 0..30 are generated (the property quantifies over 0 meaning default and 1..12); the model and theorems cover every precision N >= 1",
+        ],
+        "trusted_base": [
+            "recording statsd.Statter in the harness (12 methods; any method other than Inc/Gauge/TimingDuration is recorded as kind 'other' and rejected by the spec)",
+            "tally.BucketPairs (C03) supplies the bound pairs of random bucket specs; the through-scope path compares a scope with a plain recording reporter against a scope with the StatsD reporter",
+        ],
+    },
+    "C16": {
+        "suites": ["c16"],
+        "assumptions": COMMON_ASSUME + [
+            "the struct decoders of the model are strict (fields in writer order with the declared wire types); they accept what the Go writers produce, which is all the round-trip claim needs",
+        ],
+        "trusted_base": ["vendored thrift compact/binary protocol writers and the generated ttypes.go are modelled by hand (Tally/Model/Thrift.lean) and tied by byte-for-byte differential only"],
+    },
 }
